@@ -211,8 +211,72 @@ func codecPurity(c *Ctx, r *Report, roots []*ssa.Function, pkgPath, rule, what s
 // request's values (go-diameter's Unmarshal only sets AVPs that are present),
 // and concurrent connections share it.  One obligation per handler closure.
 func handlerStateless(c *Ctx, r *Report, rule, rel, outerName string) bool {
+	ok := handlerStateless1(c, r, rule, rel, outerName)
+	// what is registered for the command may be the handler wrapped in something else
+	// (mux.Handle("CCR", answerOnce(handleCCR()))): the wrappers are handlers too
+	inner := c.fn(rel, outerName)
+	for _, f := range c.ModFuncs {
+		if f.Pkg == nil || f.Pkg != inner.Pkg {
+			continue
+		}
+		eachInstr(f, func(_ *ssa.BasicBlock, _ int, ins ssa.Instruction) {
+			call, isCall := ins.(*ssa.Call)
+			if !isCall {
+				return
+			}
+			obj := calleeObj(&call.Call)
+			if obj == nil || (obj.Name() != "Handle" && obj.Name() != "HandleFunc" && obj.Name() != "HandleIdx") || len(call.Call.Args) < 2 {
+				return
+			}
+			// the handler argument: follow module calls that take the inner handler
+			v := stripConv(call.Call.Args[len(call.Call.Args)-1])
+			for depth := 0; depth < 4; depth++ {
+				if mi, isMI := v.(*ssa.MakeInterface); isMI {
+					v = stripConv(mi.X)
+				}
+				if mc, isMC := v.(*ssa.MakeClosure); isMC {
+					// a literal built where the handler is registered (a wrapper that was inlined)
+					if lit, isFn := mc.Fn.(*ssa.Function); isFn {
+						if !checkHandlerFns(c, r, rule, f, withAnon(lit)) {
+							ok = false
+						}
+					}
+					return
+				}
+				wc, isWrap := v.(*ssa.Call)
+				if !isWrap {
+					return
+				}
+				g := wc.Call.StaticCallee()
+				if g == nil || g == inner || !c.inModule(g) {
+					return
+				}
+				wrapsInner := false
+				var next ssa.Value
+				for _, a := range wc.Call.Args {
+					if ic, isIC := stripConv(a).(*ssa.Call); isIC {
+						if ic.Call.StaticCallee() == inner {
+							wrapsInner = true
+						} else {
+							next = ic
+						}
+					}
+				}
+				if !handlerStateless1(c, r, rule, rel, g.Name()) {
+					ok = false
+				}
+				if wrapsInner || next == nil {
+					return
+				}
+				v = next
+			}
+		})
+	}
+	return ok
+}
+
+func handlerStateless1(c *Ctx, r *Report, rule, rel, outerName string) bool {
 	outer := c.fn(rel, outerName)
-	ok := true
 	// the handler(s): the literal(s) of the constructor, or the named function / method it returns
 	var handlers []*ssa.Function
 	seenH := map[*ssa.Function]bool{outer: true}
@@ -230,6 +294,13 @@ func handlerStateless(c *Ctx, r *Report, rule, rel, outerName string) bool {
 			}
 		}
 	}
+	return checkHandlerFns(c, r, rule, outer, handlers)
+}
+
+// checkHandlerFns: the statelessness obligations for the given handler functions (closures of
+// outer, or functions it returns).
+func checkHandlerFns(c *Ctx, r *Report, rule string, outer *ssa.Function, handlers []*ssa.Function) bool {
+	ok := true
 	for _, f := range handlers {
 		bad := ""
 		pos := c.rel(f.Pos())
